@@ -26,7 +26,8 @@ HAZ = {1: "skip-hazard1:skip-after-skip-pending-imcu-row",
        3: "skip-hazard3:merged-upsampler-spare-row",
        4: "skip-hazard4:stale-rows-to-go-overshoot",
        5: "crop-hazard5:merged-upsampler-reinit",
-       6: "skip-hazard6:context-v4-next-imcu-row-already-decoded"}
+       6: "skip-hazard6:context-v4-next-imcu-row-already-decoded",
+       7: "crop-hazard7:block-smoothing-left-edge"}
 
 SAMPS_STD = ["11", "111111", "211111", "221111", "121111", "411111", "141111"]      # gray 444 422 420 440 411 441
 SAMPS_ODD = ["221212", "222111", "212111", "311111", "131111", "421111", "241111", "11111111", "22111122", "21111121", "22",
@@ -82,7 +83,8 @@ def gen_cases(ctx, rng, nimg, per_img, ntj):
         samp = rng.choice(SAMPS_STD if std else SAMPS_ODD)
         W = rng.choice([rng.range(1, 24), rng.range(17, 96), rng.range(33, 140)])
         H = rng.choice([rng.range(1, 20), rng.range(16, 80), rng.range(40, 130)])
-        mode = rng.choice([0, 0, 1, 1, 2])
+        smooth_family = rng.chance(1, 5)          # progressive data of incomplete precision: interblock smoothing is active
+        mode = rng.choice([3, 4, 5, 6, 7, 1]) if smooth_family else rng.choice([0, 0, 1, 1, 2])
         arith = 1 if rng.chance(1, 3) else 0
         prec = 12 if rng.chance(1, 3) else 8
         rst = rng.choice([0, 0, 0, 2, 5])
@@ -111,9 +113,17 @@ def gen_cases(ctx, rng, nimg, per_img, ntj):
                 cx = rng.range(0, ow + 3)
                 cw = rng.choice([0, ow - cx + 1, ow + 5]) if cx <= ow else 1
                 cw = max(cw, 0)
-            safe = rng.chance(3, 5)
+            safe = rng.chance(3, 5) or smooth_family
             ops = gen_ops(rng, oh, L, vmax, safe)
-            cases.append(("L %s | %d %d %d %d %d | %d %d | %s" % (head, M, fancy, dct, quant, ocs, cx, cw, ops), "lib"))
+            bscan = ""
+            if smooth_family:
+                if mode == 1 or rng.chance(1, 3):
+                    bscan = " %d" % rng.range(1, 3)         # buffered-image mode, early output pass
+                if cx >= 0 and cw > 0 and cx + cw <= ow and rng.chance(1, 2):
+                    # right edge inside the image, left edge at 0 / inside
+                    cx = rng.choice([0, 0, cx])
+                    cw = max(1, min(cw, ow - cx - rng.range(1, max(1, min(ow - cx - 1, 3 * align)))))
+            cases.append(("L %s | %d %d %d %d %d%s | %d %d | %s" % (head, M, fancy, dct, quant, ocs, bscan, cx, cw, ops), "lib"))
         if samp in MCUW:
             for j in range(ntj):
                 sfi = rng.below(16)
@@ -161,13 +171,18 @@ def canon_impl(l):
 
 def canon_model(l):
     """-> (head, prov, hazard class, model predicts a read past the last iMCU row)"""
-    m = re.match(r"(.*?) \| prov(.*?) \| haz (\d+) over=(\d)$", l)
+    m = re.match(r"(.*?) \| prov(.*?) \| haz (\d+) over=(\d) band=(\d+)$", l)
     if m:
-        return m.group(1), [int(x) for x in m.group(2).split()], int(m.group(3)), m.group(4) == "1"
-    m = re.match(r"(tj .*?) \| haz (\d+) over=(\d)$", l)
+        return m.group(1), [int(x) for x in m.group(2).split()], int(m.group(3)), m.group(4) == "1", int(m.group(5))
+    m = re.match(r"(tj .*?) \| haz (\d+) over=(\d) band=(\d+)$", l)
     if m:
-        return m.group(1), None, int(m.group(2)), False
-    return l, None, 0, False
+        return m.group(1), None, int(m.group(2)), False, int(m.group(4))
+    return l, None, 0, False, 0
+
+
+def cols_within(px, band):
+    m = re.search(r"cols=(-?\d+)-(-?\d+)", px or "")
+    return bool(m) and 0 <= int(m.group(1)) and int(m.group(2)) < band
 
 
 def run_harness(exe, lines, timeout=1700):
@@ -323,7 +338,7 @@ def run_cases(ctx, cases, exes, drv, flavours):
         if rc != 0 or len(mlines) < len(lines):
             ctx.broken_tie("model-driver", "extracted model failed: rc=%d %s" % (rc, err[-200:]))
             mlines = None
-    model = [canon_model(mlines[i]) if mlines else (None, None, 0, False) for i in range(len(lines))]
+    model = [canon_model(mlines[i]) if mlines else (None, None, 0, False, 0) for i in range(len(lines))]
     iso = [i for i in range(len(lines)) if model[i][2] == 5]
     isoset = set(iso)
     main_idx = [i for i in range(len(lines)) if i not in isoset]
@@ -346,7 +361,7 @@ def run_cases(ctx, cases, exes, drv, flavours):
     ref, _ = outs[flavours[0]]
     disagree = 0
     for i, (line, kind) in enumerate(cases):
-        mhead, mprov, hz, over = model[i]
+        mhead, mprov, hz, over, band = model[i]
         is_tj = line.startswith("T ")
         stream = ("tj" if is_tj else "lib") + ("-haz%d" % hz if hz else "")
         # ---- crashes (any flavour) ----
@@ -383,13 +398,20 @@ def run_cases(ctx, cases, exes, drv, flavours):
                 same = len(mp) == len(iprov) and all(a == b or b == -1 for a, b in zip(iprov, mp))
         # ---- property-level oracle (independent of the model) ----
         pbad = (py_oracle_tj if is_tj else py_oracle_lib)(line, ihead, px)
-        if px is not None and px.startswith("bad"):
+        mixed = bool(hz and band)      # a skip hazard AND the block-smoothing left-edge band: pixel differences cannot be attributed
+        if px is not None and px.startswith("bad") and not mixed:
             pbad.append(("px", "delivered pixels differ from the full decode: " + px[:120]))
+        if mixed:
+            ctx.count("mixed-hazards-px-not-judged", 1, None)
         for knd, msg in pbad:
             # a failure is a KNOWN hazard only when the model predicts this very history to go wrong through one of
             # its hazard mechanisms AND the implementation's observable behaviour equals the model's prediction
             if hz and same and knd in ("px", "scanline", "skip-return"):
                 sig = HAZ[hz]
+            elif band and not hz and knd == "px" and ihead == mhead and cols_within(px, band):
+                # block smoothing + crop with its left edge inside the image: the model (smooth_cols, hazard 7) predicts
+                # that exactly the first two block columns of the region are smoothed with replicated neighbours
+                sig = HAZ[7]
             else:
                 sig = knd + ":" + ("tj" if is_tj else "lib")
             ctx.violation(msg, {"case": line, "impl": impl[:1500], "model": (mlines[i] if mlines else "")[:1500], "model_hazard": hz},
@@ -401,7 +423,7 @@ def run_cases(ctx, cases, exes, drv, flavours):
                 ctx.violation("builds disagree (%s vs %s)" % (flavours[0], fl), {"case": line, flavours[0]: ref[i][:800], fl: o[:800]},
                               signature=(HAZ[5] if hz == 5 else "build-disagree:" + ("tj" if is_tj else "lib")))
         # ---- model correspondence ----
-        if same is False and hz != 5:
+        if same is False and hz != 5 and not (band and mhead == ihead):
             disagree += 1
             if hz and not pbad:
                 ctx.broken_tie("model-stale:hazard%d" % hz,
